@@ -277,7 +277,8 @@ fn to_expr(d: &D) -> Result<Expr, String> {
 
 /// Parses a source text with the implementation's parser and converts the tree
 pub fn parse_source(src: &str) -> Result<BlockStmt, String> {
-    let tree = nederlang::parser::parse(src).map_err(|e| format!("{e:?}"))?;
+    // (the parser may be the very thing that is broken: a panic in it is an error here, not the end of the harness)
+    let tree = std::panic::catch_unwind(|| nederlang::parser::parse(src)).map_err(|_| "the parser panicked".to_string())?.map_err(|e| format!("{e:?}"))?;
     let dbg = format!("{tree:?}");
     let d = parse_debug(&dbg)?;
     to_block(&d)
